@@ -306,6 +306,35 @@ pub fn tick_walk(len: usize, seed: u64, bars: bool, positive: bool, with_reset: 
     std::sync::Arc::new(v)
 }
 
+/// Length of the "long horizon" streams: past 2^22 calls on one instance (periodic maintenance code - a
+/// re-synchronisation every 2^20 or 2^22 updates - runs for the first time there).
+pub fn horizon_len(thorough: bool) -> usize {
+    if thorough {
+        (1 << 23) + 4096
+    } else {
+        (1 << 22) + 4096
+    }
+}
+
+/// Steps (1-based) at which a long-horizon run is judged: around every power of two from 2^10 on, one
+/// window later, and at the end.
+pub fn horizon_checkpoints(h: usize, n: usize) -> Vec<usize> {
+    let mut v = vec![h];
+    let mut k = 10;
+    while (1usize << k) <= h {
+        let p = 1usize << k;
+        for s in [p - 1, p, p + 1, p + 2, p + n, p + n + 1, p + 2 * n + 3] {
+            if s >= 1 && s <= h {
+                v.push(s);
+            }
+        }
+        k += 1;
+    }
+    v.sort();
+    v.dedup();
+    v
+}
+
 /// Families (one per configuration and seed) over `tick_walk`, every step checked.
 pub fn tick_walk_families(cfgs: &[Cfg], len: usize, seed: u64, bars: bool, positive: bool) -> Vec<Family> {
     let mut f = vec![];
